@@ -56,6 +56,8 @@ pub struct GenCfg {
     pub fk_chains: bool,
     /// allow arguments on a reference whose target contains references (D3 trigger class)
     pub fk_args_through_chain: bool,
+    /// write some references inside plural forms / range branches
+    pub fk_in_plural_or_range: bool,
     /// allow whitespace before `>` in closing tags (D1 trigger class)
     pub ws_in_closing_tag: bool,
     /// plural-capable locales only (have hand-transcribed rules)
@@ -89,6 +91,7 @@ impl Default for GenCfg {
             fk_to_null: false,
             fk_chains: true,
             fk_args_through_chain: true,
+            fk_in_plural_or_range: true,
             ws_in_closing_tag: true,
             plural_locales_only: true,
             p_surplus: 0,
@@ -782,6 +785,12 @@ impl<'t> Gen<'t> {
             if targets.is_empty() {
                 continue;
             }
+            // where the references are written: 0 = a plain string, 1 = inside the forms of a plural,
+            // 2 = inside the branches of a range (only when no target brings its own count variable)
+            let targets_have_count = targets.iter().any(|(tns, path)| {
+                p.locales.iter().any(|l| matches!(p.file(tns.as_deref(), l).map(|o| crate::sem::lookup(o, path)), Some(crate::sem::Lookup::Val(Value::Range(_) | Value::Plural(_)))))
+            });
+            let container = if targets_have_count || !self.cfg.fk_in_plural_or_range { 0 } else { self.t.weighted(&[5, 1, 1]) };
             for loc in &locales {
                 let tag = format!("{}:{}", loc, name);
                 let mut pieces: Vec<Piece> = vec![];
@@ -838,6 +847,37 @@ impl<'t> Gen<'t> {
                     // the reference key itself is an explicit default here: later references to it
                     // in this locale must follow the fallback chain to a value that is itself a reference
                     Value::Null
+                } else if ok && container == 1 {
+                    let body = normalize_pieces(pieces);
+                    let mut other = body.clone();
+                    other.push(self.var_piece("count"));
+                    Value::Plural(PluralDecl {
+                        ordinal: false,
+                        forms: vec![(Form::One, body), (Form::Other, normalize_pieces(other))],
+                    })
+                } else if ok && container == 2 {
+                    let body = normalize_pieces(pieces);
+                    let fb = vec![Piece::Text(self.text(&tag))];
+                    Value::Range(RangeDecl {
+                        ty: RangeTy::I32,
+                        ty_written: false,
+                        branches: vec![
+                            Branch {
+                                specs: vec![CountSpec::Bounds { start: Some(Num::Int(0)), end: Some((Num::Int(5), false)) }],
+                                body,
+                                syntax: 0,
+                                fallback_spelling: 0,
+                                ws: 0,
+                            },
+                            Branch {
+                                specs: vec![],
+                                body: fb,
+                                syntax: 0,
+                                fallback_spelling: 0,
+                                ws: 0,
+                            },
+                        ],
+                    })
                 } else if ok {
                     Value::Str(normalize_pieces(pieces))
                 } else if loc == p.default_locale() {
